@@ -470,6 +470,28 @@ def run(tier: str, seed: int) -> int:
         except Exception:
             pass
 
+    # escapes: `\//` is a literal `//` (docs/spec.md, comments), also on a line that carries a real comment after it
+    stats["escape_cases"] = 0
+    for k in range(12 if tier == "quick" else 60):
+        sfx = [rng.choice(["", " // a comment", "  // two // slashes", " //"]) for _ in range(5)]
+        host = rng.choice(["example.com", "x.y/z", "h"])
+        src = ("\n".join([":: Start", "~ a = 1", f"URL: https:\\//{host}{sfx[0]}", "@if a:", f"    in if http:\\//{host} end{sfx[1]}",
+                          "@endif", "@for i in [1]:", f"    in for ftp:\\//{host} {{i}}{sfx[2]}", "@endfor",
+                          f"glued \\//a<>{sfx[3]}", f"next{sfx[4]}", "+ [Go] -> Start"]))
+        want = f"URL: https://{host}\nin if http://{host} end\nin for ftp://{host} 1\nglued //anext\n"
+        with C.quiet():
+            try:
+                st = BardCompiler().compile_string(src)
+                recs, _ = R.run_history(st, [])
+                got = recs[0]["view"]["raw_content"] if recs and recs[0]["view"] else None
+            except Exception as e:  # noqa
+                got = f"<{type(e).__name__}: {str(e)[:80]}>"
+        stats["escape_cases"] += 1
+        if got != want:
+            chk.report("escaped-slashes-with-comment", f"a line with the escape \\// (and trailing comments {sfx}) shows {got!r}, "
+                       f"the reference says {want!r}", {"story_source": src})
+        chk.count(("escape", tuple(sfx), host), True)
+
     try:
         for i in range(n_cases):
             sub = rng.randrange(10 ** 9)
